@@ -85,6 +85,15 @@ def gen(tier, rng):
              sess.E('FOR J=1 TO 110:E(J\\11,J MOD 11)=J:NEXT:FOR J=1 TO 110:F(J\\11,J MOD 11)=J:NEXT:PRINT "unbounded"'), "R50000",
              sess.E("PRINT 7"), "R5000"]
     cases.append(Case(sess.session(calls), sig="zero frees slots", tag="zero-frees", side="impl", meta=("zero", None)))
+    # ... and the same when the stored zero is the result of converting a non-zero value to the variable's type
+    prog = ["10 DIM A%(255,254),C(255,255)", "20 FOR I=0 TO 255:FOR J=0 TO 254:A%(I,J)=1:NEXT J,I",
+            "30 FOR I=0 TO 255:FOR J=0 TO 255:C(I,J)=1:NEXT J,I"]
+    calls = ["R5000"] + [sess.E(l) for l in prog] + [sess.E("RUN"), "R50000",
+             sess.E('FOR J=0 TO 19:A%(1,J)=.25:NEXT:FOR J=20 TO 39:A%(1,J)=A%(1,J)/4:NEXT:FOR J=0 TO 9:C(0,J)=1D-60:NEXT:PRINT "freed"'), "R50000",
+             sess.E('FOR J=1 TO 45:D(J\\11,J MOD 11)=J:NEXT:PRINT "reused"'), "R50000",
+             sess.E('FOR J=1 TO 110:E(J\\11,J MOD 11)=J:NEXT:FOR J=1 TO 110:F(J\\11,J MOD 11)=J:NEXT:PRINT "unbounded"'), "R50000",
+             sess.E("PRINT 7"), "R5000"]
+    cases.append(Case(sess.session(calls), sig="zero frees slots (zero after conversion)", tag="zero-frees", side="impl", meta=("zero", None)))
     return cases
 
 
